@@ -29,7 +29,33 @@ def _key(o):
     return o if isinstance(o, str) else "%s(%s)" % (o[0], ",".join(str(a) for a in o[1:]))
 
 
+# power-of-two scales: scaling the data by 2^k scales every statistic exactly (no rounding), so results on scaled
+# data can be mapped back and compared with the same exact expectations; this exposes scale-dependent defects
+SCALES = [1.0, 2.0 ** -66, 2.0 ** -20, 2.0 ** 17]
+DEGREE = {"mean": 1, "population_variance": 2, "sample_variance": 2, "variance_of_mean": 2, "error": 1, "error_mean": 1,
+          "skewness": 0, "kurtosis": 0, "sample_skewness": 0, "sample_excess_kurtosis": 0, "len": 0, "is_empty": 0,
+          "standardized_moment": 0}
+
+
+def degree(key):
+    name = key.split("(")[0]
+    if name == "central_moment":
+        return int(key.split("(")[1].rstrip(")"))
+    if name == "standardized_moment" and key.endswith("(0)"):
+        return 0
+    return DEGREE.get(name, 0)
+
+
 def moment_programs(ty, accessors, with_merge):
+    progs = []
+    for sc in SCALES[1:]:
+        for xs in SEQS[2:7]:
+            progs.append({"type": ty, "ctor": ["new"], "ops": [["add", x * sc] for x in xs], "observe": accessors, "_scale": sc})
+    progs = _unscaled(ty, accessors, with_merge) + progs
+    return progs
+
+
+def _unscaled(ty, accessors, with_merge):
     progs = []
     for xs in SEQS:
         progs.append({"type": ty, "ctor": ["new"], "ops": [["add", x] for x in xs], "observe": accessors})
@@ -70,8 +96,11 @@ def _scan(progs, results, sel, acc):
     for prog, res in zip(progs, results):
         if res.get("error"):
             return {"replay_error": res["error"], "raw": res.get("raw", "")[-400:]}
-        xs = [Fraction(x) for x in oracle.flatten_moment_prog(prog)]
+        sc = prog.get("_scale", 1.0)
+        xs = [Fraction(x) / Fraction(sc) for x in oracle.flatten_moment_prog(prog)]
         exp = oracle.moment_stats(xs)
+        if sc != 1.0:
+            res = dict(res, obs={k: (v / (sc ** degree(k)) if isinstance(v, float) and degree(k) else v) for k, v in res["obs"].items()})
         keys = [_key(a) for a in sel]
         panics_expected = any(isinstance(exp.get(k), tuple) for k in keys)
         bad = oracle.compare(res, exp, keys) if not res["panic"] else []
